@@ -177,6 +177,10 @@ def run(tier, seed, replay):
         S = build(small, "csr_unsorted", rng)
         lines.append("C01.kron_csr " + json.dumps({"a": ja, "b": {"rows": small.shape[0], "cols": small.shape[1], "r": csr_rows(S)}}))
         expect.append(("abs", _data.kron_csr(U, S).to_array()))
+        inner = pattern(rng, (shape[1], int(rng.integers(1, 5))), str(rng.choice(kinds)))
+        Ui = build(inner, "csr_unsorted", rng)
+        lines.append("C01.matmul_csr " + json.dumps({"a": ja, "b": {"rows": inner.shape[0], "cols": inner.shape[1], "r": csr_rows(Ui)}, "scale": [int(sc.real), int(sc.imag)]}))
+        expect.append(("abs", _data.matmul_csr(U, Ui, sc).to_array()))
         M = build(a, "dia_messy", rng)
         sci = M.as_scipy()
         lines.append("C01.dia_abs " + json.dumps({"a": {"rows": shape[0], "cols": shape[1],
